@@ -265,21 +265,27 @@ def _(v):
     """'can be evaluated with each numeric or symbolic backend … and give the same values' along the whole positive time axis, not only where the
     exponentials are moderate: from t = 1e-9 to long after completion (rate constant x time up to 1e7, far beyond exp's float range 709) the numpy
     and math backends return finite numbers that agree with the sympy backend's 50-digit value (relative 1e-9 plus the rounding of sums of
-    terms of the arguments' size, 1e-12 x the largest argument)"""
+    terms of the concentrations' size, 1e-12 x the largest concentration among the arguments)"""
     import math
     import warnings
     import numpy as np
     import sympy
     from chempy.kinetics import integrated as I
-    cases = [("dimerization_irrev", I.dimerization_irrev, (2.0, 1.5), False),
-             ("pseudo_irrev", I.pseudo_irrev, (2.0, 0.1, 3.0, 0.5), True), ("pseudo_rev", I.pseudo_rev, (2.0, 1.0, 0.1, 3.0, 0.5), True),
-             ("binary_irrev", I.binary_irrev, (2.0, 0.1, 3.0, 0.5), True), ("binary_irrev_fast", I.binary_irrev, (1e10, 0.0, 1.3e-6, 3e-7), True),
-             ("binary_rev", I.binary_rev, (2.0, 1.0, 0.1, 3.0, 0.5), True),
-             ("unary_irrev_cstr", I.unary_irrev_cstr, (2.0, 1.0, 0.1, 3.0, 0.5, 1.0), True), ("binary_irrev_cstr", I.binary_irrev_cstr, (2.0, 1.0, 0.1, 3.0, 0.5, 1.0), True),
-             ("binary_irrev_cstr_slow_feed", I.binary_irrev_cstr, (0.5, 0.2, 0.0, 1.0, 0.25, 40.0, 3), True)]
+    # (label, function, arguments, takes a backend, largest concentration among the arguments -- the scale of rounding errors of sums --,
+    #  relative tolerance: 1e-9 (+ 1e-12 x scale), or 1e-6 (+ 1e-7 x scale) where the formula is ill-conditioned in floats -- equimolar reactants with a
+    #  negligible back reaction, 1 - exp(-tiny) -- there the obligation is 'a finite number near the value', not accuracy)
+    cases = [("dimerization_irrev", I.dimerization_irrev, (2.0, 1.5), False, 1.5, 1e-9),
+             ("pseudo_irrev", I.pseudo_irrev, (2.0, 0.1, 3.0, 0.5), True, 3.0, 1e-9), ("pseudo_rev", I.pseudo_rev, (2.0, 1.0, 0.1, 3.0, 0.5), True, 3.0, 1e-9),
+             ("binary_irrev", I.binary_irrev, (2.0, 0.1, 3.0, 0.5), True, 3.0, 1e-9), ("binary_irrev_fast", I.binary_irrev, (1e10, 0.0, 1.3e-6, 3e-7), True, 1.3e-6, 1e-9),
+             ("binary_rev", I.binary_rev, (2.0, 1.0, 0.1, 3.0, 0.5), True, 3.0, 1e-9),
+             ("binary_rev_equimolar_tight", I.binary_rev, (1e10, 1e-13, 0.0, 1e-6, 1e-6), True, 1e-6, 1e-6),
+             ("binary_rev_nearly_equimolar", I.binary_rev, (1.0, 1e-17, 0.0, 1.000000001, 1.0), True, 1.0, 1e-6),
+             ("binary_rev_nearly_equimolar_with_product", I.binary_rev, (1.0, 1e-18, 0.5, 2.000000001, 2.0), True, 2.0, 1e-6),
+             ("unary_irrev_cstr", I.unary_irrev_cstr, (2.0, 1.0, 0.1, 3.0, 0.5, 1.0), True, 3.0, 1e-9), ("binary_irrev_cstr", I.binary_irrev_cstr, (2.0, 1.0, 0.1, 3.0, 0.5, 1.0), True, 3.0, 1e-9),
+             ("binary_irrev_cstr_slow_feed", I.binary_irrev_cstr, (0.5, 0.2, 0.0, 1.0, 0.25, 40.0, 3), True, 1.0, 1e-9)]
     times = (1e-9, 1e-3, 0.3, 7.0, 100.0, 400.0, 1000.0, 1e5, 1e7)
     ts = sympy.Symbol("t", positive=True)
-    for label, fn, args, has_backend in cases:
+    for label, fn, args, has_backend, cscale, rtol_ in cases:
         bad = []
         try:
             ex = fn(ts, *[sympy.nsimplify(a, rational=True) for a in args], **({"backend": sympy} if has_backend else {}))
@@ -298,6 +304,6 @@ def _(v):
                     bad.append((be, tt, repr(exc)[:60])); continue
                 got = got if isinstance(got, tuple) else (got,)
                 for g, w in zip(got, want):
-                    if not (math.isfinite(float(g)) and abs(float(g) - float(w)) <= 1e-9 * abs(float(w)) + 1e-12 * max(1.0, *map(abs, args))):
+                    if not (math.isfinite(float(g)) and abs(float(g) - float(w)) <= rtol_ * abs(float(w)) + (1e-12 if rtol_ < 1e-8 else 1e-7) * cscale):
                         bad.append((be, tt, float(g), float(w)))
         v.prove(label + ".finite_and_equal_to_the_symbolic_value", not bad, detail=repr(bad[:3]))
